@@ -64,7 +64,7 @@ func vpCheck(nodes, ids [2]string, first bool) *api.HealthCheck {
 // VPH_C01_passing: the checks returned are exactly the tagged service checks of healthy instances.
 func VPH_C01_passing() {
 	nodes := [2]string{vp.String("nodeA"), vp.String("nodeB")}
-	ids := [2]string{"web-1", "web-2"}
+	ids := [2]string{"web-1", "web-10"} // one id is a prefix of the other
 	vp.Assume(nodes[0] != nodes[1])
 	n := vp.Param("N")
 	strict := vp.Bool("strict")
